@@ -15,4 +15,10 @@ META = {
         "text": "Same machine as C01 biased to waiters and cancellations. At every full-quiescence point a blocked Lock must be non-grantable under the lock's own rules, a cancelled Lock must have returned, TryLock probes must equal the model without cancelled calls, and a reader issued behind a waiting writer must not be granted before the writer acquired or gave up.",
         "note": "Quiescence is exact inside the synctest bubble (all goroutines durably blocked), so no wall-clock grace period is used. Bounded histories.",
     },
+    "C19": {
+        "engine": "E4 input PBT (rapid) + native go fuzzing in the thorough tier", "design_ref": "DESIGN.md §4 C19",
+        "technique": "property-based testing of round-trip / differential (naive reference) / metamorphic (read chunking) relations with boundary-biased generators; coverage-guided native fuzzing with the same oracles",
+        "text": "PadInPlace/UnpadInPlace round trip and no-panic on arbitrary input, Prefix/TrimPrefix against a naive byte-wise longest-common-prefix, prng streams compared across chunkings and against the source's little-endian words. Lengths biased to 0, 32k±3 and spare capacity; alphabets include NUL, >=0x80 and invalid UTF-8.",
+        "note": "Inputs up to 4 KiB (rapid) / fuzz-engine sized; the oracles assert exactly what the property states (no minimal-length or zero-fill requirement).",
+    },
 }
